@@ -11,6 +11,7 @@ import (
 	"strconv"
 	"strings"
 	"sync"
+	"sync/atomic"
 	"time"
 	"unsafe"
 
@@ -20,6 +21,7 @@ import (
 
 func init() {
 	extraOps["mem"] = opMem
+	extraOps["hammer"] = opHammer
 	extraOps["decm"] = opDecM
 	extraOps["allocs"] = opAllocs
 	extraOps["legacy"] = opLegacy
@@ -65,6 +67,9 @@ func walkPieces0(v reflect.Value, path string, out *[]piece) {
 		s := v.String()
 		if len(s) > 0 {
 			*out = append(*out, piece{path, "string", uintptr(unsafe.Pointer(unsafe.StringData(s))), uintptr(len(s)), uintptr(len(s)), 1})
+		} else if d := unsafe.StringData(s); d != nil {
+			// an empty string still carries a data pointer, which keeps what it points into alive
+			*out = append(*out, piece{path, "empty", uintptr(unsafe.Pointer(d)), 0, 0, 1})
 		}
 	case reflect.Slice:
 		if v.IsNil() {
@@ -79,6 +84,8 @@ func walkPieces0(v reflect.Value, path string, out *[]piece) {
 			*out = append(*out, piece{path, k, v.Pointer(), uintptr(v.Len()) * es, uintptr(v.Cap()) * es, uintptr(t.Elem().Align())})
 		} else if v.Len() > 0 {
 			*out = append(*out, piece{path, k + "-cap0", v.Pointer(), uintptr(v.Len()) * es, 0, uintptr(t.Elem().Align())})
+		} else {
+			*out = append(*out, piece{path, "empty", v.Pointer(), 0, 0, 1})
 		}
 		if t.Elem().Kind() != reflect.Uint8 {
 			for i := 0; i < v.Len(); i++ {
@@ -153,6 +160,9 @@ func analyse(ps []piece, buf []byte, others []*kept) (problems []string, inbuf [
 		}
 		if len(buf) > 0 && p.size > 0 && p.addr < b1 && p.addr+p.capb > b0 {
 			inbuf = append(inbuf, p)
+		}
+		if len(buf) > 0 && p.kind == "empty" && p.addr >= b0 && p.addr <= b1 {
+			problems = append(problems, fmt.Sprintf("empty-value-references-input:%s:+%d", p.path, p.addr-b0))
 		}
 	}
 	// pairwise overlap up to capacity, within the object
@@ -489,5 +499,81 @@ func opConc(a []*sx) string {
 		sb.WriteString(" (" + r + ")")
 	}
 	sb.WriteString(")")
+	return sb.String()
+}
+
+// hammer TYPE MODE MILLIS VAL...: goroutines (4 per core, shared out over the values) call
+// EncodedSize and EncodeObject on their own immutable value of one struct type, again and
+// again for MILLIS ms; every result is compared with a sequential reference taken through a
+// pointer before the goroutines start.
+// Output: (ref SIZE...) (badsize N) (badbytes N) (errors N) (panics N) (calls N)
+func opHammer(a []*sx) string {
+	mode := a[1].atom
+	ms := atoi(a[2])
+	type item struct {
+		p    reflect.Value
+		size int
+		ref  []byte
+	}
+	var items []item
+	var sb strings.Builder
+	sb.WriteString("(ref")
+	for _, x := range a[3:] {
+		p, err := newOf(a[0].atom)
+		if err != nil {
+			return "(harness-error " + hexs(err.Error()) + ")"
+		}
+		if err := build(p.Elem(), x); err != nil {
+			return "(harness-error " + hexs(err.Error()) + ")"
+		}
+		n := frugal.EncodedSize(p.Interface())
+		buf := make([]byte, n)
+		wn, err := frugal.EncodeObject(buf, nil, p.Interface())
+		if err != nil || wn != n {
+			return "(harness-error " + hexs("reference encode failed") + ")"
+		}
+		items = append(items, item{p, n, buf})
+		fmt.Fprintf(&sb, " %d", n)
+	}
+	sb.WriteString(")")
+	var badSize, badBytes, errs, panics, calls int64
+	var wg sync.WaitGroup
+	start := make(chan struct{})
+	deadline := time.Now().Add(time.Duration(ms) * time.Millisecond)
+	g := 4 * runtime.GOMAXPROCS(0)
+	for i := 0; i < g; i++ {
+		it := items[i%len(items)]
+		wg.Add(1)
+		go func(it item, i int) {
+			defer wg.Done()
+			v := arg(it.p, mode)
+			buf := make([]byte, it.size+64)
+			<-start
+			for k := 0; time.Now().Before(deadline); k++ {
+				func() {
+					defer func() {
+						if r := recover(); r != nil {
+							atomic.AddInt64(&panics, 1)
+						}
+					}()
+					atomic.AddInt64(&calls, 1)
+					if n := frugal.EncodedSize(v); n != it.size {
+						atomic.AddInt64(&badSize, 1)
+					}
+					if (k+i)%4 == 0 {
+						wn, err := frugal.EncodeObject(buf, nil, v)
+						if err != nil {
+							atomic.AddInt64(&errs, 1)
+						} else if wn != it.size || string(buf[:wn]) != string(it.ref) {
+							atomic.AddInt64(&badBytes, 1)
+						}
+					}
+				}()
+			}
+		}(it, i)
+	}
+	close(start)
+	wg.Wait()
+	fmt.Fprintf(&sb, " (badsize %d) (badbytes %d) (errors %d) (panics %d) (calls %d)", badSize, badBytes, errs, panics, calls)
 	return sb.String()
 }
